@@ -33,6 +33,7 @@ type sFactory struct {
 	txnOps map[any][]sTxnOp
 	// fault injection: when faults is set every store call may fail on a free boolean
 	faults bool
+	faultOn string // when set, only store calls whose name contains this text may fail (e.g. "pos": checkpoint store only)
 	nFault int // faults taken so far
 	maxF   int // budget of faults on one path
 	// observation
@@ -44,6 +45,9 @@ func newSFactory() *sFactory { return &sFactory{txnOps: map[any][]sTxnOp{}, maxF
 
 func (f *sFactory) fail(what string) bool {
 	if !f.faults || f.nFault >= f.maxF {
+		return false
+	}
+	if f.faultOn != "" && !sContains(what, f.faultOn) {
 		return false
 	}
 	if vBool("fault:" + what) {
@@ -258,4 +262,13 @@ func sNewKafkaDataHandler(options ...coreconfig.Option[*cdcwriter.KafkaDataHandl
 		return nil, errors.New("fail to connect the kafka")
 	}
 	return &cdcwriter.KafkaDataHandler{}, nil
+}
+
+func sContains(s, sub string) bool {
+	for i := 0; i+len(sub) <= len(s); i++ {
+		if s[i:i+len(sub)] == sub {
+			return true
+		}
+	}
+	return false
 }
